@@ -132,8 +132,6 @@ def contained(sig, pk, fs, nin=2, mutable=False, idx=0, what=''):
     out = 'accept'
     try:
         r = VerifyScript(CScript(sig), CScript(pk), tx, idx, flags=L.lib_flags(fs))
-        if r is not None:
-            raise Viol('%s VerifyScript returned a value' % what, None, repr(r))
     except Viol:
         raise
     except ValidationError as e:
